@@ -1,3 +1,4 @@
+import IoraModel.Gen.Orders
 /-!
 # Sequential model of `iora::core::RingBuffer<T, Capacity>` and `iora::core::DynamicRingBuffer<T>`
 (include/iora/core/ring_buffer.hpp) — DESIGN §7 C10.
@@ -26,17 +27,14 @@ def upd {α : Type} (b : Nat → α) (k : Nat) (x : α) : Nat → α := fun i =>
 /-- slot index `c & mask` -/
 def slot {α : Type} (r : Ring α) (c : UInt64) : Nat := (c &&& r.mask).toNat
 
-/-- mirrors include/iora/core/ring_buffer.hpp::nextPowerOfTwo -/
+/-- the bit smear `v |= v >> k` for every `k` of the list, in order -/
+def smear (ks : List UInt64) (v : UInt64) : UInt64 := ks.foldl (fun v k => v ||| (v >>> k)) v
+
+/-- mirrors include/iora/core/ring_buffer.hpp::nextPowerOfTwo — DEFINED from the shift list the translator extracts from
+the source (`Gen.Orders.npotShifts`; the surrounding shape `if (v == 0) return 1; v--; …; return v + 1` is enforced by the
+translator).  64-bit arithmetic as in the code: for `v > 2^63` the result wraps to 0 (`R1_nextPowerOfTwo_wraps`). -/
 def nextPowerOfTwo (v : UInt64) : UInt64 :=
-  if v = 0 then 1 else
-  let v := v - 1
-  let v := v ||| (v >>> 1)
-  let v := v ||| (v >>> 2)
-  let v := v ||| (v >>> 4)
-  let v := v ||| (v >>> 8)
-  let v := v ||| (v >>> 16)
-  let v := v ||| (v >>> 32)
-  v + 1
+  if v = 0 then 1 else smear Gen.Orders.npotShifts (v - 1) + 1
 
 /-- mirrors include/iora/core/ring_buffer.hpp::RingBuffer (constructor; `Capacity` must be a power of two — the
 `static_assert`s; the driver refuses other values) -/
@@ -97,8 +95,38 @@ def clear {α : Type} (r : Ring α) : Ring α := { r with head := 0, tail := 0 }
 /-- list → slot function of a fresh buffer (`newBuffer[i] = …` for `i < toCopy`, `T{}` elsewhere) -/
 def ofList {α : Type} (d : α) (xs : List α) : Nat → α := fun i => match xs[i]? with | some x => x | none => d
 
-/-- mirrors include/iora/core/ring_buffer.hpp::resize (DynamicRingBuffer only); returns the number of dropped items -/
+/-- value of an extracted `resize` expression (64-bit unsigned arithmetic, wrapping like the C++) -/
+def evalRE (env : String → UInt64) : Gen.Orders.RE → UInt64
+  | .v n => env n
+  | .n k => UInt64.ofNat k
+  | .sub a b => evalRE env a - evalRE env b
+  | .add a b => evalRE env a + evalRE env b
+  | .ite lt a b t e =>
+    if (if lt then evalRE env a < evalRE env b else evalRE env a > evalRE env b) then evalRE env t else evalRE env e
+
+/-- binding of one more local of `resize` (the translator rejects any name that is not bound at that point) -/
+def bind (env : String → UInt64) (name : String) (x : UInt64) : String → UInt64 := fun s => if s = name then x else env s
+
+/-- mirrors include/iora/core/ring_buffer.hpp::resize (DynamicRingBuffer only); returns the number of dropped items.
+The arithmetic (`count`, `toCopy`, `startTail`, `dropped`, the two final stores) is EVALUATED from the expression trees the
+translator extracts (`Gen.Orders.resize*`); the statement sequence around them is pinned by the translator. -/
 def resize {α : Type} (r : Ring α) (newRequested : UInt64) : UInt64 × Ring α :=
+  let newCapacity := nextPowerOfTwo newRequested
+  let newMask := newCapacity - 1
+  let env := bind (bind (bind (fun _ => 0) "head" r.head) "tail" r.tail) "newCapacity" newCapacity
+  let count := evalRE env Gen.Orders.resizeCount
+  let env := bind env "count" count
+  let toCopy := evalRE env Gen.Orders.resizeToCopy
+  let env := bind env "toCopy" toCopy
+  let startTail := evalRE env Gen.Orders.resizeStart
+  let env := bind env "startTail" startTail
+  let items := readFrom r startTail toCopy.toNat
+  (evalRE env Gen.Orders.resizeDropped,
+   { r with cap := newCapacity, mask := newMask, buf := ofList r.dflt items,
+            tail := evalRE env Gen.Orders.resizeNewTail, head := evalRE env Gen.Orders.resizeNewHead })
+
+/-- the same function written out by hand (what `resize` evaluates to on the unmodified source: `resize_unfold`) -/
+def resizeRef {α : Type} (r : Ring α) (newRequested : UInt64) : UInt64 × Ring α :=
   let newCapacity := nextPowerOfTwo newRequested
   let newMask := newCapacity - 1
   let count := r.head - r.tail
